@@ -18,9 +18,11 @@
    C17_reported_name_and_token_value_use_only_allowed_characters): for every input, flag set and feeding schedule, whatever an
    accepting call (ok, more values, end of header) reports as the name - and as the value unless the value starts with a double
    quote - consists of allowed parameter characters that are not white space.
+   The same for every parameter ParseAllURIParams / ParseAllURIHdrs stores, after any verdict (ULConv.v,
+   C17_stored_uri_parameters_use_only_allowed_characters, C17_stored_uri_headers_use_only_allowed_characters).
    PARTIAL: the full converse (accepted => the input has the shape of the grammar, including the interior of quoted values and the
    white space between the parts) is not proved: render/parse oracle + correspondence (chunked too). *)
-From Sipsp Require Import Harness Misc HdrSpec TokSpec UListSpec UHListSpec TokEoi TokItem UListGen TokLead TokConv.
+From Sipsp Require Import Harness Misc HdrSpec TokSpec UListSpec UHListSpec TokEoi TokItem UListGen TokLead TokConv ULConv.
 Theorem C17_character_set : forall up c, tok_allowed up c = true <-> In c (allowed_set up).
 Proof. exact tok_allowed_spec. Qed.
 Theorem C17_bad_byte_in_name_rejected_there : forall f (rest : list byte) i s c,
@@ -337,6 +339,25 @@ Proof.
   split; [exact H|]. split; [|vm_compute; reflexivity].
   apply (tp_fed1 0 [97;98;61;99] 0 tokparam0 4 _ _ (tp_fed0 0 _ 0 ltac:(unfold nnat; cbn [length]; lia)) H); [reflexivity|unfold nnat; cbn [length]; lia].
 Qed.
+(* the list wrapper: a byte outside the set is never absorbed into a stored parameter - every input, flag set and capacity *)
+Theorem C17_stored_uri_parameters_use_only_allowed_characters : forall flags0 buf offs n o e L, offs <= nnat (length buf) ->
+  parse_all_uri_params flags0 buf offs (uparams_init (repeat uriparam0 n)) = Done o e L ->
+  forall j, (j < N.to_nat (ul_pno L))%nat ->
+    reported_ok (N.lor flags0 (2 ^ bPOptParamSemiSep)) buf (up_param (nth j (ul_params L) uriparam0)).
+Proof. exact uparams_stored_chars. Qed.
+Theorem C17_stored_uri_headers_use_only_allowed_characters : forall flags0 buf offs n o e L, offs <= nnat (length buf) ->
+  parse_all_uri_hdrs flags0 buf offs (uhdrs_init (repeat tokparam0 n)) = Done o e L ->
+  forall j, (j < N.to_nat (uh_hno L))%nat ->
+    reported_ok (N.lor flags0 (N.lor (2 ^ bPOptParamAmpSep) (2 ^ bPOptTokURIHdr))) buf (nth j (uh_hdrs L) tokparam0).
+Proof. exact uhdrs_stored_chars. Qed.
+Example C17_stored_example : (* "a=1;b{=2" : the second parameter is rejected at the brace, the first one is stored *)
+  match parse_all_uri_params 0 [97;61;49;59;98;123;61;50] 0 (uparams_init (repeat uriparam0 2)) with
+  | Done o e L => o = 5 /\ e = EBadChar /\ ul_pno L = 1
+  | _ => False
+  end.
+Proof. vm_compute. repeat split; reflexivity. Qed.
+Print Assumptions C17_stored_uri_parameters_use_only_allowed_characters.
+Print Assumptions C17_stored_uri_headers_use_only_allowed_characters.
 Print Assumptions C17_reported_name_and_token_value_use_only_allowed_characters.
 Print Assumptions C17_param_then_next_param_at_any_offset.
 Print Assumptions C17_empty_items_and_leading_white_space_skipped.
